@@ -221,6 +221,25 @@ NEEDS = {
     "C17-11": "data on STDIN (no --data) together with -i: the STDIN document is not read",
     "C18-11": "json_parse of a source string and of a rewritten copy of it in one evaluation: the second call gets the first structure",
     "C19-11": "a property that is a list in one resource and a map / bool / null in its sibling: IN [[..], {..}] no longer compares whole lists",
+    "C01-12": "a filter on a LIST whose clause raises an evaluation error (ordering comparison of unlike types): the error is swallowed and the element dropped",
+    "C02-12": "`--payload` with two rules entries where a later entry passes: the earlier FAIL is lost from the exit code",
+    "C03-12": "prefix not on a binary clause that already carries an operator-level negation (`not x != v`): the two no longer cancel",
+    "C04-12": "a clause line whose first key merely starts with the letters `or` (`order`, `origin`): joined to the previous line as a disjunction",
+    "C05-12": "several rules files given with overlapping directory / file arguments: de-duplicated through a HashMap, report order varies",
+    "C06-12": "`test` with a rule name defined twice, the definitions not adjacent: only consecutive same-named rules are grouped",
+    "C07-12": "console `--show-summary all` over several data files: the header shows the running status instead of the file's own",
+    "C08-12": "`rulegen` on a resource whose `Type` is present but not a string: panic",
+    "C09-12": "a rules file without named rules (only library / parameterised rules) next to others: file status falls back wrongly instead of following the lists",
+    "C10-12": "plain YAML floats written without a leading zero (`.75`, `-.25`): reported as strings",
+    "C11-12": "a quoted argument of a single-value short-form tag (`!Ref '8080'`): re-typed by content, differs from the long form",
+    "C12-12": "plain `validate` with several (rules, data) pairs: the per-pair reporter receives the cumulative status",
+    "C13-12": "negated `>` (`!>` / `not >`) : rewritten to `<` instead of `<=`, wrong on equal values",
+    "C14-12": "comma-first layout: a line break or comment BEFORE the comma of a list / struct literal no longer parses",
+    "C15-12": "`count()` of a literal written in place or bound with let: counts 0, the parameterised call counts 1",
+    "C16-12": "`.jsn` test files under `test --dir` with structured output: dropped from the report",
+    "C17-12": "an empty `{}` parameter file merged first: later root entries are invisible to `this.*` / keys filters, order-dependent",
+    "C18-12": "`regex_replace` with several matches in one string: only the first is replaced",
+    "C19-12": "a string with two or more consecutive blanks nested inside a list / map property value: blanks collapsed, rule FAILs on its own template",
 }
 
 
